@@ -167,6 +167,8 @@ class Machine:
         self.cli_done = False
         self.sreg_serial = 0
         self.max_steps = max_steps
+        self.back_edge_limit = None
+        self.back_edges = 0
         self.inputs = []
         self.stores = {}
         self.pc = 0
@@ -442,7 +444,14 @@ class Machine:
                 raise ExecError("ABI: interrupts disabled with cli and SREG not restored at return")
             return "ret"
         if mn in ("rjmp", "jmp"):
-            return self.p.resolve(ops[0], self.pc)
+            tgt = self.p.resolve(ops[0], self.pc)
+            if self.back_edge_limit is not None and isinstance(tgt, int) and tgt <= self.pc:
+                # per-round extraction: the round loop's back edge is taken at most back_edge_limit times, then execution
+                # falls through to the loop exit (the epilogue that stores the state back)
+                self.back_edges += 1
+                if self.back_edges > self.back_edge_limit:
+                    return None
+            return tgt
         if mn == "cpse":
             a, b = R[self.rname(ops[0])], R[self.rname(ops[1])]
             if not (isinstance(a, int) and isinstance(b, int)):
@@ -801,7 +810,7 @@ def translate_free(asm_text, fname, out_name):
     return PRELUDE + body, _report(m)
 
 
-def translate_masked(asm_text, fname, first_round, out_name, shares, max_steps=2000000):
+def translate_masked(asm_text, fname, first_round, out_name, shares, max_steps=2000000, back_edge_limit=None):
     """ascon_x<n>_permute(state, first_round, preserve) of ascon-x2-asm-avr5.S / ascon-x3-asm-avr5.S:
     state in r25:r24, first_round in r22, preserve in r21:r20.
     shares: ASCON_MASKED_MAX_SHARES the text was pre-processed with (int), or the (key, data, max)
@@ -822,5 +831,6 @@ def translate_masked(asm_text, fname, first_round, out_name, shares, max_steps=2
     prog = Program(asm_text)
     m = Machine(prog, fname, out_name, {"state": 5 * mx * 8, "preserve": (n - 1) * 8},
                 {"r24": Ptr("state", 0), "r22": first_round, "r20": Ptr("preserve", 0)}, max_steps=max_steps)
+    m.back_edge_limit = back_edge_limit
     body = m.run()
     return PRELUDE + body, _report(m)
